@@ -31,6 +31,14 @@ use world::*;
 /// `PROVABLE_ANCHOR_DEPTH`, restated from its rustdoc ("AT LEAST this many blocks ... 10").
 const DEPTH: u64 = 10;
 const SIG_OVERFLOW: &str = "anchor-depth-add-overflows-u32";
+const SIG_STAMP: &str = "inherited-stamp-not-minimum";
+
+static CTX: std::sync::OnceLock<std::sync::Arc<Ctx>> = std::sync::OnceLock::new();
+
+/// `true` when `sig` is a listed known finding (counted, printed once): the case continues.
+fn known(sig: &str) -> bool {
+    CTX.get().is_some_and(|c| c.known_hit(sig))
+}
 
 // ---------------------------------------------------------------------------------------------
 // Reference predicates (from the rustdoc of state.rs / satisfiability.rs)
@@ -255,6 +263,77 @@ fn check_view(what: &str, state: &MigrationState, targets: DuenessTargets) -> Re
     vensure_eq!(state.is_terminal(), is_terminal_status(state.status()), "is-terminal-differs", "{what}: status {:?}", state.status());
     let rr = catch(|| state.replan_required()).map_err(|p| classify_panic("replan_required", &p))?;
     vensure_eq!(rr, ref_replan_required(state, &ts), "replan-required-differs", "{what}: threshold {} crossing values {:?} txs {ts:?}", state.replan_threshold().percent(), state.crossing_values());
+    Ok(())
+}
+
+/// Invariants 1 and 2 and the validity of every other step, decided from the returned state alone
+/// (so they hold for ANY answers of the store).
+fn structural(what: &str, step: &AdvanceStep, next_is_none: bool, state: &MigrationState, post_ts: &[T], targets: DuenessTargets) -> Result<(), Fail> {
+    let (scanned, eff) = (u32::from(targets.scanned()), u32::from(targets.effective()));
+    let dead = refdead(post_ts, scanned);
+    match step {
+        AdvanceStep::Broadcast { id } => {
+            let i = u32::from(*id);
+            let Some(t) = by_id(post_ts, i) else { vfail!("step-names-unknown-transaction", "{what}: {step:?}") };
+            vensure!(t.rank == 2, "broadcast-not-proved", "{what}: Broadcast offered for {t:?}");
+            vensure!(deps_mined(post_ts, t), "broadcast-before-dependencies-mined", "{what}: Broadcast offered for {t:?}; {post_ts:?}");
+            vensure!(t.sched <= eff, "broadcast-not-due", "{what}: Broadcast offered for {t:?} at effective {eff}");
+            vensure!(t.expiry == 0 || t.expiry >= eff, "broadcast-expired", "{what}: Broadcast offered for {t:?} at effective {eff} (scanned {scanned})");
+            vensure!(t.report.is_none(), "broadcast-under-failure-report", "{what}: {t:?}");
+            vensure!(!dead.contains(&i), "broadcast-dead", "{what}: {t:?} is in the dead set {dead:?}");
+            let view = catch(|| state.transaction_statuses(targets)).map_err(|p| classify_panic(&format!("{what}: transaction_statuses"), &p))?;
+            let v = view.iter().find(|v| v.id() == *id).unwrap();
+            vensure!(v.ready() && v.action() == Some(NextAction::Broadcast), "status-view-disagrees-with-step", "{what}: {step:?} but the view says {v:?}");
+        }
+        AdvanceStep::Prove { transactions } => {
+            vensure!(!transactions.is_empty(), "prove-empty", "{what}");
+            let ids: Vec<u32> = transactions.iter().map(|p| u32::from(p.id())).collect();
+            vensure!(ids.iter().collect::<BTreeSet<_>>().len() == ids.len(), "prove-duplicate-ids", "{what}: {ids:?}");
+            let mut prev_key: Option<(u32, u32)> = None;
+            for p in transactions {
+                let i = u32::from(p.id());
+                let Some(t) = by_id(post_ts, i) else { vfail!("step-names-unknown-transaction", "{what}: {step:?}") };
+                vensure!(t.rank == 1, "prove-not-signed", "{what}: {t:?}");
+                vensure!(deps_mined(post_ts, t), "prove-before-dependencies-mined", "{what}: {t:?}");
+                vensure!(!dead.contains(&i), "prove-dead", "{what}: {t:?} dead set {dead:?}");
+                match t.boundary {
+                    Some(b) => vensure!(b as u64 + DEPTH < scanned as u64, "prove-boundary-not-settled", "{what}: {t:?} at scanned {scanned}"),
+                    None => vensure!(t.sched <= eff, "prove-preparation-not-due", "{what}: {t:?} at effective {eff}"),
+                }
+                vensure!(!expired_at(t, eff), "prove-expired", "{what}: {t:?} at effective {eff}");
+                let kind_ok = match p.kind() {
+                    MigrationTxKind::Transfer { crossing } => t.transfer && t.crossing == Some(crossing),
+                    MigrationTxKind::Preparation { .. } => !t.transfer,
+                };
+                vensure!(kind_ok, "prove-target-kind", "{what}: {p:?} vs {t:?}");
+                // earliest-ready first: a transfer by its boundary, a preparation by its schedule, ties by id
+                let key = (t.boundary.unwrap_or(t.sched), t.id);
+                vensure!(prev_key.is_none_or(|k| k < key), "prove-order", "{what}: {ids:?} not ordered earliest-ready first");
+                prev_key = Some(key);
+            }
+        }
+        AdvanceStep::Rebuild { id } => {
+            let i = u32::from(*id);
+            let Some(t) = by_id(post_ts, i) else { vfail!("step-names-unknown-transaction", "{what}: {step:?}") };
+            vensure!(t.transfer && expired_at(t, scanned) && t.mark.is_none() && !t.deps.iter().any(|d| dead.contains(d)), "rebuild-invalid", "{what}: Rebuild offered for {t:?} at scanned {scanned}; dead {dead:?}");
+            vensure!(next_is_none, "rebuild-outlook", "{what}");
+        }
+        AdvanceStep::Replan => {
+            let unmined: Vec<&T> = post_ts.iter().filter(|t| t.rank < 4).collect();
+            let all_dead = !unmined.is_empty() && unmined.iter().all(|t| dead.contains(&t.id));
+            vensure!(all_dead || ref_replan_required(state, post_ts), "replan-unfounded", "{what}: Replan although the threshold is not exceeded and live work remains: {post_ts:?}");
+            vensure!(next_is_none, "replan-outlook", "{what}");
+        }
+        AdvanceStep::Complete => {
+            vensure!(!post_ts.is_empty() && post_ts.iter().all(|t| t.rank == 4), "complete-with-unmined", "{what}: {post_ts:?}");
+            vensure!(next_is_none, "complete-outlook", "{what}");
+        }
+        AdvanceStep::Reevaluate => {
+            vensure!(post_ts.iter().any(|t| t.rank < 4 && t.report.is_some()), "reevaluate-without-report", "{what}");
+            vensure!(next_is_none, "reevaluate-outlook", "{what}");
+        }
+        AdvanceStep::Waiting => {}
+    }
     Ok(())
 }
 
@@ -509,7 +588,7 @@ impl H<'_> {
                     if a.boundary != b.boundary {
                         let iv = self.interval as u64;
                         let (pb, nb) = (a.boundary.map(|x| x as u64), b.boundary.map(|x| x as u64));
-                        let ok = b.rank <= 1 && b.transfer && matches!((pb, nb), (Some(p), Some(n)) if n % iv == 0 && n >= p && n + iv <= b.sched as u64 / iv * iv) && b.sched > a.sched;
+                        let ok = b.rank <= 1 && b.transfer && matches!((pb, nb), (Some(p), Some(n)) if n % iv == 0 && n >= p && n + iv <= b.sched as u64 / iv * iv) && (b.sched > a.sched || b.sched == MAXH);
                         vensure!(ok, "anchor-redraw-invalid", "{what}: transaction {} boundary {:?} -> {:?} (schedule {} -> {}, interval {iv}, rank {})", a.id, a.boundary, b.boundary, a.sched, b.sched, b.rank);
                         self.flags.redraw = true;
                     }
@@ -530,7 +609,14 @@ impl H<'_> {
         }
 
         if !contract {
-            // contract-violating answers: only no-panic / termination (+ the unconditional parts above)
+            // contract-violating answers: no-panic / termination, the unconditional parts above, and
+            // the guards the property states for ALL oracle answers (they are decided from the state).
+            if !terminal {
+                structural(&what, &step, adv.next().is_none(), &state, &post_ts, targets)?;
+                if matches!(step, AdvanceStep::Broadcast { .. }) {
+                    self.flags.broadcasts_offered += 1;
+                }
+            }
             self.state = state;
             return Ok(Some(step));
         }
@@ -648,20 +734,10 @@ impl H<'_> {
                 self.flags.deferred = true;
             }
             let dead = refdead(&post_ts, scanned);
-            let view = state.transaction_statuses(targets);
+            structural(&what, &step, adv.next().is_none(), &state, &post_ts, targets)?;
             match &step {
                 AdvanceStep::Broadcast { id } => {
-                    // invariant 1, stated directly
                     let i = u32::from(*id);
-                    let Some(t) = by_id(&post_ts, i) else { vfail!("step-names-unknown-transaction", "{what}: {step:?}") };
-                    vensure!(t.rank == 2, "broadcast-not-proved", "{what}: Broadcast offered for {t:?}");
-                    vensure!(deps_mined(&post_ts, t), "broadcast-before-dependencies-mined", "{what}: Broadcast offered for {t:?}; {post_ts:?}");
-                    vensure!(t.sched <= eff, "broadcast-not-due", "{what}: Broadcast offered for {t:?} at effective {eff}");
-                    vensure!(t.expiry == 0 || t.expiry >= eff, "broadcast-expired", "{what}: Broadcast offered for {t:?} at effective {eff} (scanned {scanned})");
-                    vensure!(t.report.is_none(), "broadcast-under-failure-report", "{what}: {t:?}");
-                    vensure!(!dead.contains(&i), "broadcast-dead", "{what}: {t:?} is in the dead set {dead:?}");
-                    let v = view.iter().find(|v| v.id() == *id).unwrap();
-                    vensure!(v.ready() && v.action() == Some(NextAction::Broadcast), "status-view-disagrees-with-step", "{what}: {step:?} but the view says {v:?}");
                     let last = log.iter().rev().find(|(x, _)| *x == i).map(|(_, a)| a.clone());
                     vensure!(
                         matches!(last, Some(StepSatisfiability::Satisfiable { .. }) | Some(StepSatisfiability::Unsatisfiable { cause: UnsatisfiableCause::Expired, .. })),
@@ -671,45 +747,20 @@ impl H<'_> {
                     self.flags.broadcasts_offered += 1;
                 }
                 AdvanceStep::Prove { transactions } => {
-                    // invariant 2, stated directly
-                    vensure!(!transactions.is_empty(), "prove-empty", "{what}");
-                    let ids: Vec<u32> = transactions.iter().map(|p| u32::from(p.id())).collect();
-                    vensure!(ids.iter().collect::<BTreeSet<_>>().len() == ids.len(), "prove-duplicate-ids", "{what}: {ids:?}");
                     for p in transactions {
                         let i = u32::from(p.id());
-                        let Some(t) = by_id(&post_ts, i) else { vfail!("step-names-unknown-transaction", "{what}: {step:?}") };
-                        vensure!(t.rank == 1, "prove-not-signed", "{what}: {t:?}");
-                        vensure!(deps_mined(&post_ts, t), "prove-before-dependencies-mined", "{what}: {t:?}");
-                        vensure!(!dead.contains(&i), "prove-dead", "{what}: {t:?} dead set {dead:?}");
-                        match t.boundary {
-                            Some(b) => vensure!(b as u64 + DEPTH < scanned as u64, "prove-boundary-not-settled", "{what}: {t:?} at scanned {scanned}"),
-                            None => vensure!(t.sched <= eff, "prove-preparation-not-due", "{what}: {t:?} at effective {eff}"),
-                        }
-                        vensure!(!expired_at(t, eff), "prove-expired", "{what}: {t:?} at effective {eff}");
-                        let kind_ok = match p.kind() {
-                            MigrationTxKind::Transfer { crossing } => t.transfer && t.crossing == Some(crossing),
-                            MigrationTxKind::Preparation { .. } => !t.transfer,
-                        };
-                        vensure!(kind_ok, "prove-target-kind", "{what}: {p:?} vs {t:?}");
+                        let last = log.iter().rev().find(|(x, _)| *x == i).map(|(_, a)| a.clone());
+                        vensure!(
+                            matches!(last, Some(StepSatisfiability::Satisfiable { .. }) | Some(StepSatisfiability::Unsatisfiable { cause: UnsatisfiableCause::Expired, .. })),
+                            "step-not-vouched-for",
+                            "{what}: {step:?} surfaced but the store's last answer for {i} was {last:?}"
+                        );
                     }
                     self.flags.proves_offered += 1;
                 }
-                AdvanceStep::Rebuild { id } => {
-                    let i = u32::from(*id);
-                    let Some(t) = by_id(&post_ts, i) else { vfail!("step-names-unknown-transaction", "{what}: {step:?}") };
-                    vensure!(t.transfer && expired_at(t, scanned) && t.mark.is_none() && !t.deps.iter().any(|d| dead.contains(d)), "rebuild-invalid", "{what}: Rebuild offered for {t:?} at scanned {scanned}; dead {dead:?}");
-                    vensure!(adv.next().is_none(), "rebuild-outlook", "{what}");
-                    self.flags.rebuild = true;
-                }
-                AdvanceStep::Replan => {
-                    vensure!(adv.next().is_none(), "replan-outlook", "{what}");
-                    self.flags.replan = true;
-                }
-                AdvanceStep::Complete => {
-                    vensure!(!post_ts.is_empty() && post_ts.iter().all(|t| t.rank == 4), "complete-with-unmined", "{what}: {post_ts:?}");
-                    vensure!(adv.next().is_none(), "complete-outlook", "{what}");
-                    self.flags.complete = true;
-                }
+                AdvanceStep::Rebuild { .. } => self.flags.rebuild = true,
+                AdvanceStep::Replan => self.flags.replan = true,
+                AdvanceStep::Complete => self.flags.complete = true,
                 AdvanceStep::Waiting => {
                     // invariant 5: never silently stranded
                     let unmined: Vec<&T> = post_ts.iter().filter(|t| t.rank < 4).collect();
@@ -737,7 +788,7 @@ impl H<'_> {
         Ok(Some(step))
     }
 
-    fn execute(&mut self, step: &AdvanceStep, bc: Bc, prove_prefix: Option<u8>) -> Result<(), Fail> {
+    fn execute(&mut self, step: &AdvanceStep, bc: Bc, prove_prefix: Option<u8>, supersede: bool) -> Result<(), Fail> {
         match step {
             AdvanceStep::Prove { transactions } => {
                 let n = prove_prefix.map_or(transactions.len(), |k| (k as usize).min(transactions.len()));
@@ -771,7 +822,10 @@ impl H<'_> {
                 self.persist("after broadcast")?;
             }
             AdvanceStep::Replan => {
-                self.supersede()?;
+                // the contracted response (not always taken, so that the history goes on)
+                if supersede {
+                    self.supersede()?;
+                }
             }
             AdvanceStep::Reevaluate => {
                 // the consumer's response: sync to at least the reported tip
@@ -833,10 +887,10 @@ impl H<'_> {
         let prev_ts = snap(&prev);
         let mut rolled_back: Option<u32> = None;
         match ev {
-            Event::Step { est, exec, bc, prove_prefix, fail_at } => {
+            Event::Step { est, exec, bc, prove_prefix, fail_at, supersede } => {
                 if let Some(step) = self.drive(*est, *fail_at)? {
                     if *exec {
-                        self.execute(&step, *bc, *prove_prefix)?;
+                        self.execute(&step, *bc, *prove_prefix, *supersede)?;
                     }
                 }
             }
@@ -1020,8 +1074,10 @@ impl H<'_> {
                                 (Some((gs, UnsatisfiableKind::Inherited)), Some((ws, UnsatisfiableKind::Inherited))) => gs > *ws && applicable_stamps(&got, g, scanned).contains(&gs),
                                 _ => false,
                             }) && rebuild(&self.state, prev.status(), |t| tx_with(t, t.state(), None, None, None, t.broadcast_failure_at())) == rebuild(&prev, prev.status(), |t| tx_with(t, t.state(), None, None, None, t.broadcast_failure_at()));
-                            let sig = if only_stamps { "inherited-stamp-not-minimum" } else { "record-satisfiability-differs" };
+                            let sig = if only_stamps { SIG_STAMP } else { "record-satisfiability-differs" };
+                            if !(only_stamps && known(SIG_STAMP)) {
                             vfail!(sig, "{}: record_satisfiability(scanned {scanned}, [({i}, {ans:?})]) gave marks {:?}, documented {want_marks:?}; txs before: {prev_ts:?}", self.what("record"), got.iter().map(|t| t.mark).collect::<Vec<_>>());
+                            }
                         }
                         if got.iter().zip(prev_ts.iter()).any(|(g, p)| g.mark.is_some() && p.mark.is_none()) {
                             self.flags.mark_recorded = true;
@@ -1228,7 +1284,7 @@ fn regression(i: u64) -> CaseResult {
             s2.record_satisfiability(DuenessTargets::at(bh(200)), &[(tid(2), spent(100)), (tid(0), spent(50))]);
             let ts = snap(&s2);
             let got: Vec<Option<u32>> = ts.iter().map(|t| t.mark.map(|m| m.0)).collect();
-            vensure!(got[3] == Some(50) && got[4] == Some(50), "inherited-stamp-not-minimum", "record_satisfiability([(p2, InputsSpent@100), (p0, InputsSpent@50)]) stamped {got:?}; p3 depends on p1 (inherits 50 from p0) and p2 (100): documented minimum 50");
+            vensure!(got[3] == Some(50) && got[4] == Some(50), SIG_STAMP, "record_satisfiability([(p2, InputsSpent@100), (p0, InputsSpent@50)]) stamped {got:?}; p3 depends on p1 (inherits 50 from p0) and p2 (100): documented minimum 50");
             Ok(Obs::nontrivial())
         }
         _ => Ok(Obs::trivial()),
@@ -1239,6 +1295,7 @@ fn main() {
     // one global malloc-statistics mutex less (16 workers over SQLite)
     unsafe { rusqlite::ffi::sqlite3_config(rusqlite::ffi::SQLITE_CONFIG_MEMSTATUS, 0 as std::os::raw::c_int) };
     let ctx = Ctx::from_args("C18", "exploration");
+    let _ = CTX.set(ctx.clone());
     ctx.set_rule(
         "Case = well-formed committed migration (DAG: <=3 preparation layers of <=3 txs with backward dependencies, 1-5 transfers each on <=1 preparation; \
          states AwaitingSignature..Mined, marks, reports, expiry in {0, canonical, past, doomed window}, on-grid anchors, any status, any threshold; \
@@ -1257,7 +1314,7 @@ fn main() {
     ctx.run_enum("regression", 4, true, regression, |i| format!("regression case {i}"));
 
     let max_ev = tier.pick(40usize, 80);
-    ctx.run_prop("history-memory", move || arb_case(max_ev), tier.pick(60_000, 3_000_000), |c| run_history(c, BackendKind::Memory));
+    ctx.run_prop("history-memory", move || arb_case(max_ev), tier.pick(600_000, 20_000_000), |c| run_history(c, BackendKind::Memory));
     for l in ["broadcast-offered", "prove-offered", "mark-recorded", "rollback-unmined", "save-load"] {
         ctx.require_label_fraction("history-memory", l, 0.10);
     }
@@ -1268,12 +1325,12 @@ fn main() {
         ctx.require_min_count("history-memory", l, 50);
     }
 
-    ctx.run_prop("history-sqlite", move || arb_case(24), tier.pick(1_500, 100_000), |c| run_history(c, BackendKind::Sqlite));
+    ctx.run_prop("history-sqlite", move || arb_case(24), tier.pick(12_000, 400_000), |c| run_history(c, BackendKind::Sqlite));
     ctx.require_label_fraction("history-sqlite", "save-load", 0.10);
 
     let three = || (arb_migration_state(), arb_migration_state(), arb_migration_state());
-    ctx.run_prop("roundtrip-memory", three, tier.pick(20_000, 500_000), |(a, b, c)| check_roundtrip(BackendKind::Memory, a, b, c));
-    ctx.run_prop("roundtrip-sqlite", three, tier.pick(1_500, 100_000), |(a, b, c)| check_roundtrip(BackendKind::Sqlite, a, b, c));
+    ctx.run_prop("roundtrip-memory", three, tier.pick(50_000, 2_000_000), |(a, b, c)| check_roundtrip(BackendKind::Memory, a, b, c));
+    ctx.run_prop("roundtrip-sqlite", three, tier.pick(8_000, 300_000), |(a, b, c)| check_roundtrip(BackendKind::Sqlite, a, b, c));
     for l in ["first-terminal", "second-terminal", "pending-replaces-pending", "has-report", "has-mark"] {
         ctx.require_label_fraction("roundtrip-sqlite", l, 0.05);
     }
@@ -1281,14 +1338,14 @@ fn main() {
     ctx.run_prop(
         "roundtrip-wellformed-sqlite",
         || (arb_case(6), arb_case(6), arb_case(6)),
-        tier.pick(600, 40_000),
+        tier.pick(3_000, 100_000),
         |(a, b, c)| check_roundtrip(BackendKind::Sqlite, &build(a).state, &build(b).state, &build(c).state),
     );
 
     let conf = || (arb_migration_state(), arb_migration_state(), arb_migration_tx_state());
     ctx.run_prop("conformance-memory", conf, tier.pick(5_000, 100_000), |(a, b, n)| check_conformance(BackendKind::Memory, a, b, *n));
-    ctx.run_prop("conformance-sqlite", conf, tier.pick(500, 20_000), |(a, b, n)| check_conformance(BackendKind::Sqlite, a, b, *n));
-    ctx.run_prop("update-unknown-sqlite", arb_migration_state, tier.pick(200, 5_000), check_update_unknown);
+    ctx.run_prop("conformance-sqlite", conf, tier.pick(2_000, 60_000), |(a, b, n)| check_conformance(BackendKind::Sqlite, a, b, *n));
+    ctx.run_prop("update-unknown-sqlite", arb_migration_state, tier.pick(500, 10_000), check_update_unknown);
 
     ctx.finish();
 }
